@@ -239,6 +239,11 @@ def run(tier, seed):
         perfect("alignment.percentage_correct_segments", al.percentage_correct_segments, (ts,), meta=m)
         perfect("alignment.percentage_correct_segments", al.percentage_correct_segments, (ts,), {"duration": float(ts[-1]) + 1.0}, m)
         perfect("alignment.evaluate", al.evaluate, (ts,), meta=m)
+    # fixed witness of the recorded finding (soft reward interpolated across a pitchless-to-pitched transition)
+    w_t, w_f, w_r = np.array([0.0, 2.0 / 128, 4.0 / 128]), np.array([0.0, 440.0, 440.0]), np.array([0.0, 0.5, 1.0])
+    r = call(me.melody.evaluate, w_t, w_f, w_t.copy(), w_f.copy(), ref_reward=w_r, hop=1.0 / 128)
+    log.add("perfect2", "melody.evaluate[soft reward]", r, r, {"freq": w_f.tolist(), "ref_reward": w_r.tolist(), "hop": 1.0 / 128, "witness": True,
+                                                                "class": "soft-reward-interpolated-across-a-pitchless-to-pitched-transition"})
     bad, st = log.judge()
     ev.tlc("Trace_Rel", st, "PerfectSpec verdicts on recorded outcomes")
     ev.cov["traces_validated_against_impl"] = len(log.events)
